@@ -58,7 +58,7 @@ def expand_locals(fn, e, before, depth=4):
             if a is None or not isinstance(a.value, (ast.BinOp, ast.Name)) or any(isinstance(x, ast.Name) and x.id == n.id for x in ast.walk(a.value)):
                 return n
             # only a single definition in the function: otherwise which one reaches is a path question
-            defs = [x for x in ast.walk(fn) if isinstance(x, (ast.Assign, ast.AnnAssign, ast.AugAssign)) and
+            defs = [x for x in ast.walk(fn) if isinstance(x, (ast.Assign, ast.AnnAssign, ast.AugAssign)) and getattr(x, 'value', None) is not None and
                     any(isinstance(t, ast.Name) and t.id == n.id for t in (x.targets if isinstance(x, ast.Assign) else [x.target]))]
             if len(defs) != 1:
                 return n
